@@ -15,6 +15,8 @@ func init() {
 }
 
 func checkC08(c *Ctx, r *Report) {
+	// "the command fails instead of writing an invalid document": a rejected document is a non-zero exit (shared with C14.d, C20.a)
+	defer checkCommandExitStatus(c, r, "C08.a")
 	defer func() { ruleRegexInventory(c, r, "C08.d", "core/validators", "common") }()
 	w := c.W
 	r.NotDecided = append(r.NotDecided,
